@@ -205,7 +205,9 @@ def unorderable_keys(spec):
 
 def strategy():
     from hypothesis import strategies as st
-    sstr = st.one_of(st.sampled_from(STRS), st.text(alphabet='abé<>&"{}[] \nzq9', max_size=8)).map(lambda s: ['str', s])
+    # (drawn by index: Hypothesis puts the repr of a filtered strategy into a per-example event string, and a repr that spells
+    # out the long members of STRS cost ~65 KB of retained memory per case - 4.5 GB per thorough shard, see DESIGN 9)
+    sstr = st.one_of(st.integers(0, len(STRS) - 1).map(lambda i: STRS[i]), st.text(alphabet='abé<>&"{}[] \nzq9', max_size=8)).map(lambda s: ['str', s])
     sint = st.one_of(st.integers(-5, 5), st.integers(-2 ** 70, 2 ** 70)).map(lambda i: ['int', str(i)])
     sfloat = st.floats(allow_nan=False, allow_infinity=False).map(lambda f: ['float', repr(f)])
     scalar = st.one_of(sstr, sint, sfloat, st.booleans().map(lambda b: ['bool', b]), st.just(['none']))
